@@ -6,7 +6,7 @@ from translate import PIN
 LEVEL = "proof"
 MANIFEST = dict(
     text='The quantifier is a finite table (164 modules, ~20 500 items): the kernel evaluates the decidable predicate PackModule.OK (item addressability Item.WF, key resolution, module naming, refresh window) over the WHOLE table regenerated from the working tree (decide +kernel, one obligation per module, assembled into `all_modules_ok`), proves the three known ill-formed items really are ill-formed, and proves every module pinned at the audited commit is present field-for-field (`layout_immutable`). Search: independent Python re-computation of well-formedness, pin diff item by item, FILES-reply naming for all 895 combinations.'
-         ' Since session 3: the EFFECTIVE read footprint of every pinned item is probed through the real read path (all ones / only the pinned field / everything but it). Session 4: the real GeckoAsyncSpa._connect is driven with a scripted FILES reply for every shipped (platform, cfg, log) and must import exactly the shipped modules. Session 5: the layout of a CONNECTED spa - tables instantiated over a block, both facades built and read on several wirings (single-speed / two-speed pumps, nothing, everything) - every live item must still have the layout its module publishes (live-layout). Round 15: layout of the live items of blocking sessions (second session per process) against the published layout. Round 16: blocking_declarations_are_made_for_each_connection (where the tables are turned into objects) over the regenerated skeleton.',
+         ' Since session 3: the EFFECTIVE read footprint of every pinned item is probed through the real read path (all ones / only the pinned field / everything but it). Session 4: the real GeckoAsyncSpa._connect is driven with a scripted FILES reply for every shipped (platform, cfg, log) and must import exactly the shipped modules. Session 5: the layout of a CONNECTED spa - tables instantiated over a block, both facades built and read on several wirings (single-speed / two-speed pumps, nothing, everything) - every live item must still have the layout its module publishes (live-layout). Round 15: layout of the live items of blocking sessions (second session per process) against the published layout. Round 16: blocking_declarations_are_made_for_each_connection (where the tables are turned into objects) over the regenerated skeleton. Round 17: the published layout (writability included) of live items before, during and after a suspended / failing / cancelled write.',
     note='Trusted: Lean kernel; harness/packs.py extraction by import (what the library sees after accessor __init__) + ast check for duplicate dict keys; pins/layout-236b7b1.json.gz is the layout at the audited commit. The generator input SpaPackStruct.xml is absent: well-formedness is judged on the shipped Python only.',
     technique='Lean 4 kernel evaluation (decide +kernel) of decidable predicates over the complete regenerated tables',
     design='5/C18',
@@ -392,6 +392,71 @@ def search_blocking_sessions(ctx):
     return n
 
 
+def search_layout_during_writes(ctx):
+    """the published layout of a LIVE item (position, size, bit field, labels, writability) is the same at every moment a client can
+    look at it: while a write through the item is under way (the connection's exchange suspended), after a write that failed, and
+    after one that was cancelled - on the real awaitable structure with the real accessors of a few table pairs"""
+    import asyncio
+    import importlib
+    import vloop
+    from geckolib.driver.async_spastruct import GeckoAsyncStructure
+    n = 0
+    pairs = [("inyt-cfg-61", "inyt-log-61"), ("inxm-cfg-9", "inxm-log-9")]
+    for cfg, log in pairs:
+        try:
+            cm = importlib.import_module("geckolib.driver.packs." + cfg)
+            lm = importlib.import_module("geckolib.driver.packs." + log)
+        except Exception:  # noqa
+            continue
+        seen = {}
+
+        async def body(loop):
+            mode = {"how": "suspend"}
+            gate = {}
+
+            async def on_async_set_value(pos, length, newvalue):
+                if mode["how"] == "raise":
+                    raise RuntimeError("the exchange failed")
+                gate["f"] = loop.create_future()
+                await gate["f"]
+            st = GeckoAsyncStructure(lambda *a: None, on_async_set_value)
+            st.set_status_block(bytes(1024))
+            st.build_accessors(cm.GeckoConfigStruct(st), lm.GeckoLogStruct(st))
+            items = [a for a in st.accessors.values() if a.read_write is not None and a.type in ("Enum", "Bool", "Byte", "Word") and a.pos + a.length <= 1024][:40]
+            for a in items:
+                before = _layout_of(a)
+                v = (a.items[1] if a.type == "Enum" and a.items and len(a.items) > 1 and a.items[1] else (True if a.type == "Bool" else 1))
+                for how in ("suspend", "raise", "cancel"):
+                    mode["how"] = "suspend" if how == "cancel" else how
+                    t = asyncio.ensure_future(a.async_set_value(v))
+                    await asyncio.sleep(0)
+                    await asyncio.sleep(0)
+                    during = _layout_of(a)
+                    if how == "suspend" and "f" in gate and not gate["f"].done():
+                        gate["f"].set_result(None)
+                    if how == "cancel":
+                        t.cancel()
+                    try:
+                        await t
+                    except BaseException:  # noqa
+                        pass
+                    after = _layout_of(a)
+                    if during != before or after != before:
+                        seen.setdefault(how, {"item": a.tag, "published": before, "while the write is under way": during, "afterwards": after})
+        try:
+            vloop.run_virtual(body)
+        except Exception as e:  # noqa
+            ctx.violation("layout-during-writes:raised", {"kind": "layout-during-writes", "tables": [cfg, log]}, "the writes run", f"{type(e).__name__}: {e}")
+            continue
+        n += 1
+        ctx.count("evaluations", 120)
+        for how, obs in seen.items():
+            ctx.violation(f"layout-during-writes:{how}", {"kind": "layout-during-writes", "tables": [cfg, log], "write": how},
+                          "the item's published layout (writability included) is what the table says, before, during and after a write", {k: str(v) for k, v in obs.items()})
+            break
+    return n
+
+
 def run(ctx):
     st = translate.run(["Packs", "Pinned", "Skeletons"])
     ctx.cov["translator"] = st
@@ -413,6 +478,10 @@ def run(ctx):
         n += search_blocking_sessions(ctx)
     except Exception as e:  # noqa
         ctx.obligation_broken("harness:blocking-sessions", f"{type(e).__name__}: {e}")
+    try:
+        n += search_layout_during_writes(ctx)
+    except Exception as e:  # noqa
+        ctx.obligation_broken("harness:layout-during-writes", f"{type(e).__name__}: {e}")
     try:
         n += search_live_layout(ctx, mods)
     except Exception as e:  # noqa
@@ -446,6 +515,8 @@ def replay(inp):
         search_live_layout(ctx, mods)
     if inp.get("kind") == "blocking-sessions":
         search_blocking_sessions(ctx)
+    if inp.get("kind") == "layout-during-writes":
+        search_layout_during_writes(ctx)
     for v in ctx.violations:
         if v["input"] == inp:
             return True, v["observed"]
